@@ -70,6 +70,7 @@ def _unpack(profile, sim, state):
     sim.oracle_checks = part["oracle_checks"]
     sim.known_hits = list(part["known_hits"])
     sim.tainted = set(part["tainted"])
+    sim.intr_fired = set(part.get("intr_fired", []))
     sim.user.update(state["user"])
     sim.epoch = state["epoch"]
     sim.fired("F5.restart")
@@ -254,7 +255,19 @@ def nf_diff(profile, full, known, oracle):
     ops = full["ops"]
     if not any(o.get("f") for o in ops):
         return None
-    nf = _drive(child_replay, (profile, full["cfg"], ops, known, True, None))
+    tainted0 = set(full["tainted"])
+    # an interrupt that was delivered counts even if the call went on to return something (numpy
+    # swallows exceptions raised while it probes an operand; barril has one bare `except:`)
+    took_effect = set(full.get("intr_fired", []))
+    for o, e in zip(ops, full["log"]):
+        f = o.get("f") or ""
+        if e[3] in ("intr", "restart", "sweep_violation"):
+            took_effect.add(o["i"])
+        elif f.startswith("F1.") or f.startswith("F3.") or f.startswith("F5."):
+            took_effect.add(o["i"])
+        elif f.startswith("F2.") and (o["i"] in tainted0 or e[3] == "exc"):
+            took_effect.add(o["i"])
+    nf = _drive(child_replay, (profile, full["cfg"], ops, known, frozenset(took_effect), None))
     out = {"violations": [], "execs": {"NF": 1}, "oracle_checks": 0, "known_hits": []}
     if nf["violations"]:
         # the fault-free execution itself violates a step monitor: an ordinary bug the faults did not hide
